@@ -160,7 +160,7 @@ PROPS = {
     },
     "C17": {
         "lean_modules": ["TableauVerif.Props.C17"],
-        "oracles": ["c17.cls", "c17.fuzz", "c17.docfuzz", "c17.cross"],
+        "oracles": ["c17.cls", "c17.fuzz", "c17.docfuzz", "c17.cross", "c17.sepcell"],
         "streams": [
             ("corr.types.match", 60000, 600000),
             ("corr.types.misc", 9000, 200000),
@@ -168,6 +168,8 @@ PROPS = {
             ("corr.protogen.parseHeader", 4000, 200000),
             ("e2e.C17.nopanic", 400, 20000, 8),
             ("e2e.C17.docfuzz", 400, 20000, 8),
+            # in-cell aggregates with ONE separator set at field level × cells with blank items and lone separators
+            ("e2e.C17.sepCells", 300, 12000, 4),
         ],
         "assumptions": [
             "modelled: the six recognisers of internal/types (direct recognisers of the regular expressions, tied to Go's regexp by exhaustive token sequences up to length 3/4 plus random ones), BelongToFirstElement, ParseTypeDescriptor, strcase.ToSnake without acronyms, and protogen's default-mode header parser (parseField / parseMapField / parseListField / parseStructField / parseBasicField / layout look-ahead / virtual type cells / nested naming) over the key:value vocabulary of field properties",
@@ -191,12 +193,14 @@ PROPS = {
     },
     "C06": {
         "lean_modules": ["TableauVerif.Props.C06", "TableauVerif.Props.C06Range"],
-        "oracles": ["c06.rt", "c06.cell", "c20.emitts"],
+        "oracles": ["c06.rt", "c06.cell", "c20.emitts", "c13.dry"],
         "streams": [
             ("e2e.C06.formats", 3000, 100000),
             # cells at the edges of the Timestamp range: the three files of a worksheet are written together or not at all
             ("e2e.C06.boundary", 200, 6000),
             ("corr.xproto.squeeze", 70000, 600000),
+            # the three files of every dry-run patch preview (several overlays at once) decode to one message: main patched by that overlay
+            ("e2e.C13.dryrun", 30, 1000),
             ("corr.store.emitTimestamp", 10000, 300000),
         ],
         "assumptions": [
@@ -347,7 +351,7 @@ PROPS = {
     },
     "C12": {
         "lean_modules": ["TableauVerif.Props.C12", "TableauVerif.Props.C12Contig", "TableauVerif.Props.C12Seq"],
-        "oracles": ["c12.range", "c12.contig", "c01.rt", "c12.refer", "doc.parse", "c12.seq", "c12.redecl"],
+        "oracles": ["c12.range", "c12.contig", "c01.rt", "c12.refer", "doc.parse", "c12.seq", "c12.redecl", "c12.keyrange"],
         "streams": [
             ("corr.fieldprop.range", 12000, 400000),
             ("e2e.C12.contiguity", 1200, 60000),
@@ -359,6 +363,8 @@ PROPS = {
             ("e2e.C12.sequence", 300, 12000),
             # one nested type name declared by two columns with the same or with different sub-field constraints
             ("e2e.C12.redeclared", 200, 8000),
+            # a range on the key of a struct-valued map, vertical and horizontal layouts
+            ("e2e.C12.keyRange", 200, 8000),
             # uniqueness in documents: the document parser model (incl. E2005 on map nodes and keyed lists) against
             # the real one; o.doc.parse judges the clear case (a unique map stating one key text twice)
             ("corr.confgen.docParse", 6000, 200000),
@@ -370,7 +376,7 @@ PROPS = {
     },
     "C13": {
         "lean_modules": ["TableauVerif.Props.C13"],
-        "oracles": ["c13.patch", "c13.load", "c13.dry", "c13.tbl", "c13.ydoc"],
+        "oracles": ["c13.patch", "c13.load", "c13.dry", "c13.tbl", "c13.ydoc", "c13.emap"],
         "streams": [
             ("corr.xproto.patch", 6000, 300000),
             ("e2e.C13.load", 3000, 100000),
@@ -379,6 +385,8 @@ PROPS = {
             ("e2e.C13.table", 200, 8000),
             # document worksheets (YAML): an overlay entry replaces main's entry of its key whatever its value is ("" included)
             ("e2e.C13.docPatch", 200, 8000),
+            # in-cell maps keyed by an enum / by int32, PATCH_REPLACE or default, through GenProto, dry run and loader
+            ("e2e.C13.incellMaps", 200, 8000),
         ],
         "assumptions": [
             "modelled: xproto.PatchMessage/patchMessage/patchList/patchMap over message trees (populated fields only); unknown fields not modelled",
